@@ -278,7 +278,17 @@ func checkC20(c *Ctx) {
 			}
 		}
 	}
+	var cli []CLICase
+	for i, body := range []string{"script S {\n    foo\n    break\n}\n", "script S {\n    while (flag(A)) {\n        continue\n        foo\n    }\n}\n",
+		"const A = 1\n\nconst A = 2\nscript S {\n}\n", "script S {\n    switch (var(V)) {\n    case 1: a\n    case 1: b\n    }\n}\n",
+		"script S {\n    msgbox(\"x\")\n}\n\n\ntext S_Text_0 {\n    \"mine\"\n}\n"} {
+		for k, lead := range []string{"", "\n", "\n\n\n# c\n", "\r\n\r\n", "  \n\t\n"} {
+			cli = append(cli, CLICase{ID: fmt.Sprintf("cli%d.%d", i, k), Src: lead + body, Opts: Opts{Optimize: true}, Stdin: k%2 == 1})
+		}
+	}
+	cliStates := cliCheck(c, cli, "rejection")
 	bad, states, ok := runPairCases(c, "Reject", "reject.ndjson", recs)
+	states += cliStates
 	if !ok {
 		return
 	}
